@@ -56,16 +56,7 @@ def check(R, cases, name):
     recs = [dict(id=o["id"], vals=o["vals"], src=o["src"], out=o["out"], srctext=o["srctext"], outtext=o["outtext"],
                  **{"with": {k: o["with"][k] for k in ("err", "sk", "panic")}, "plain": {k: o["plain"][k] for k in ("err", "sk", "panic")}})
             for o in obs]
-    bad = []
-    shard = 40000
-    for s in range(0, len(recs), shard):
-        part = recs[s:s + shard]
-        path = R.path("obs", "%s-%d.ndjson" % (name, s))
-        vlib.write_ndjson(path, part)
-        res = R.tlc("AliasCheck", "INIT Init\nNEXT Next\nINVARIANT Chk\n", env={"VERIF_OBS": path}, workers=1, name="%s-check%d" % (name, s), timeout=3000)
-        if res.distinct != len(part):
-            raise vlib.MachineryError("AliasCheck visited %d of %d" % (res.distinct, len(part)))
-        bad += [s + p[1] - 1 for p in res.prints if p and p[0] == "MISMATCH"]
+    bad = sorted(s + p[1] - 1 for s, p in R.pvalidate("AliasCheck", recs, 20000, name) if p[0] == "MISMATCH")
     for k in bad:
         r = recs[k]
         ex = dict(aliases={n: " ".join(v["val"]) + (" " if v["blank"] else "") for n, v in r["vals"].items()}, source=r["srctext"],
